@@ -104,8 +104,8 @@ def check(spec, ctx):
         ctx.note(spec, False, ["rejected-by-class"])
         return
     n = len(word)
-    m = ent._match
-    wrapped = m.end() > n
+    ref = dna.ref_search(cls.structure(), word, True)      # oracle side, public API only
+    wrapped = ref is not None and ref.end > n
     mutated = bool(spec.get("muts")) or bool(spec.get("case"))
     classes = ["accepted:" + spec["cls"].split(":")[0].split(".")[0], "acc:" + spec["cls"]]
     if wrapped:
